@@ -424,23 +424,58 @@ Qed.
 Lemma components_nonempty n : components n <> [].
 Proof. apply split_byte_nonempty. Qed.
 
+Lemma same_path_spec a b : same_path a b = true <-> a = b.
+Proof.
+  unfold same_path. pose proof (c_eq path_cmp path_cmp_ok a b) as H.
+  destruct (path_cmp a b); split; intro E; try discriminate; try tauto.
+  - apply H in E. discriminate.
+  - apply H in E. discriminate.
+Qed.
+
+Lemma write_refines m p c : inv m -> p <> [] ->
+  fst (write m p c) = fst (spec_write (files m) p c) /\
+  inv (snd (write m p c)) /\
+  files (snd (write m p c)) = snd (spec_write (files m) p c).
+Proof.
+  intros Hinv Hp. pose proof (write_ok_iff m p c Hinv Hp) as Hok. unfold spec_write.
+  destruct (write m p c) as [ok m'] eqn:E. simpl in Hok.
+  destruct (collides p (files m)); simpl in Hok; subst ok; simpl.
+  - apply (write_fail_same _ _ _ _ Hinv) in E. subst m'. auto.
+  - split; [reflexivity|]. split.
+    + eapply write_ok_inv; eauto.
+    + eapply write_ok_files; eauto.
+Qed.
+
+Lemma read_sget m p : inv m -> p <> [] ->
+  read m p = match sget p (files m) with Some c => ROk c | None => RNotExist end.
+Proof. intros Hinv Hp. rewrite (read_spec _ _ Hinv Hp). reflexivity. Qed.
+
+Lemma copy_refines m d sr : inv m -> d <> [] -> sr <> [] ->
+  fst (copy m d sr) = fst (spec_copy (files m) d sr) /\
+  inv (snd (copy m d sr)) /\
+  files (snd (copy m d sr)) = snd (spec_copy (files m) d sr).
+Proof.
+  intros Hinv Hd Hs. unfold copy, spec_copy. rewrite (read_sget _ _ Hinv Hs).
+  destruct (sget sr (files m)) as [c|]; simpl; [|auto].
+  destruct (same_path d sr); simpl; [auto|]. apply write_refines; assumption.
+Qed.
+
 Lemma step_refines m o : inv m ->
   fst (step_fs m o) = fst (step_spec false (files m) o) /\
   inv (snd (step_fs m o)) /\
   files (snd (step_fs m o)) = snd (step_spec false (files m) o).
 Proof.
-  intro Hinv. destruct o as [n c|n|pre]; simpl.
-  - pose proof (components_nonempty n) as Hp.
-    pose proof (write_ok_iff m (components n) c Hinv Hp) as Hok.
-    unfold spec_write.
-    destruct (write m (components n) c) as [ok m'] eqn:E. simpl in Hok.
-    destruct (collides (components n) (files m)); simpl in Hok; subst ok; simpl.
-    + apply (write_fail_same _ _ _ _ Hinv) in E. subst m'. auto.
-    + split; [reflexivity|]. split.
-      * eapply write_ok_inv; eauto.
-      * eapply write_ok_files; eauto.
+  intro Hinv. destruct o as [n c|n|pre|d sr]; simpl.
+  - destruct (write_refines m (components n) c Hinv (components_nonempty n)) as [H1 [H2 H3]].
+    destruct (write m (components n) c) as [ok m']. destruct (spec_write (files m) (components n) c) as [ok' s'].
+    simpl in *. subst. auto.
   - rewrite (read_spec _ _ Hinv (components_nonempty n)). auto.
   - auto.
+  - destruct (copy_refines m (components d) (components sr) Hinv (components_nonempty d) (components_nonempty sr))
+      as [H1 [H2 H3]].
+    destruct (copy m (components d) (components sr)) as [ok m'].
+    destruct (spec_copy (files m) (components d) (components sr)) as [ok' s'].
+    simpl in *. subst. auto.
 Qed.
 
 Lemma run_refines : forall ops m, inv m ->
@@ -491,15 +526,11 @@ Qed.
 
 Lemma step_strict s o : deviating s o = false -> step_spec true s o = step_spec false s o.
 Proof.
-  destruct o as [n c|n|pre]; simpl; intro H.
+  destruct o as [n c|n|pre|d sr]; simpl; intro H.
   - reflexivity.
   - reflexivity.
   - unfold spec_list. rewrite (listing_strict _ _ H). reflexivity.
-Qed.
-
-Lemma snd_step_strict b s o : snd (step_spec b s o) = snd (step_spec false s o).
-Proof.
-  destruct o as [n c|n|pre]; simpl; try reflexivity.
+  - reflexivity.
 Qed.
 
 Lemma run_strict : forall ops s, no_deviation s ops = true ->
@@ -833,16 +864,26 @@ Proof. intros c Hin. eapply split_byte_pieces; eauto. Qed.
 Lemma noslash_pp q p : pp q p -> noslash p -> noslash q.
 Proof. intros [x [r ->]] H c Hin. apply H. apply in_or_app. left; exact Hin. Qed.
 
-Lemma step_canon m o : inv m -> canon m -> canon (snd (step_fs m o)).
+Lemma write_canon m n c : inv m -> canon m -> canon (snd (write m (components n) c)).
 Proof.
-  intros Hinv Hc. destruct o as [n c|n|pre]; simpl; try exact Hc.
-  destruct (write m (components n) c) as [[|] m'] eqn:E; simpl.
+  intros Hinv Hc. destruct (write m (components n) c) as [[|] m'] eqn:E; simpl.
   - destruct (write_ok_get _ _ _ _ E) as [_ [_ [_ Hget]]].
     intros k e Hk. rewrite Hget in Hk.
     destruct (path_eq_dec k (components n)) as [->|_]; [apply noslash_components|].
     destruct (in_dec path_eq_dec k (parents (components n))) as [Hin|_]; [|eapply Hc; eauto].
     apply in_parents in Hin as [_ Hin]. eapply noslash_pp; eauto. apply noslash_components.
   - apply (write_fail_same _ _ _ _ Hinv) in E. subst m'. exact Hc.
+Qed.
+
+Lemma step_canon m o : inv m -> canon m -> canon (snd (step_fs m o)).
+Proof.
+  intros Hinv Hc. destruct o as [n c|n|pre|d sr]; simpl; try exact Hc.
+  - pose proof (write_canon m n c Hinv Hc) as H.
+    destruct (write m (components n) c) as [ok m']. exact H.
+  - unfold copy. destruct (read m (components sr)) as [c| | |]; simpl; try exact Hc.
+    destruct (same_path (components d) (components sr)); simpl; [exact Hc|].
+    pose proof (write_canon m d c Hinv Hc) as H.
+    destruct (write m (components d) c) as [ok m']. exact H.
 Qed.
 
 Lemma run_canon : forall ops m, inv m -> canon m -> canon (snd (run_fs m ops)).
@@ -910,23 +951,37 @@ Proof.
   apply existsb_exists in E as [kv [Hin Hb]]. rewrite (H _ Hin), andb_false_r in Hb. discriminate.
 Qed.
 
+(* the name an operation stores under, if any *)
+Definition writes_to (o : op) : option bytes :=
+  match o with OWrite n _ => Some n | OCopy d _ => Some d | _ => None end.
+
+Lemma spec_write_walkable s p c : all_walkable s -> walkable p = true ->
+  all_walkable (snd (spec_write s p c)).
+Proof.
+  intros Hs Hp. unfold spec_write. destruct (collides p s); simpl; [exact Hs|].
+  intros kv Hin. apply in_put_inv in Hin as [->|Hin]; [exact Hp | auto].
+Qed.
+
 Lemma run_spec_walkable b : forall ops s, all_walkable s ->
-  (forall n c, In (OWrite n c) ops -> walkable (components n) = true) ->
+  (forall o n, In o ops -> writes_to o = Some n -> walkable (components n) = true) ->
   all_walkable (snd (run_spec b s ops)).
 Proof.
   induction ops as [|o ops IH]; intros s Hs Hw; simpl; [exact Hs|].
   assert (Hs1 : all_walkable (snd (step_spec b s o))).
-  { destruct o as [n c|n|pre]; simpl; try exact Hs.
-    unfold spec_write. destruct (collides (components n) s); simpl; [exact Hs|].
-    intros kv Hin. apply in_put_inv in Hin as [->|Hin]; [|auto].
-    simpl. eapply Hw. left. reflexivity. }
+  { destruct o as [n c|n|pre|d sr]; simpl; try exact Hs.
+    - pose proof (spec_write_walkable s (components n) c Hs (Hw _ n (or_introl eq_refl) eq_refl)) as H.
+      destruct (spec_write s (components n) c). exact H.
+    - unfold spec_copy. destruct (sget (components sr) s) as [c|]; simpl; [|exact Hs].
+      destruct (same_path (components d) (components sr)); simpl; [exact Hs|].
+      pose proof (spec_write_walkable s (components d) c Hs (Hw _ d (or_introl eq_refl) eq_refl)) as H.
+      destruct (spec_write s (components d) c). exact H. }
   destruct (step_spec b s o) as [r s1]. simpl in Hs1.
-  specialize (IH s1 Hs1 (fun n c H => Hw n c (or_intror H))).
+  specialize (IH s1 Hs1 (fun o' n H => Hw o' n (or_intror H))).
   destruct (run_spec b s1 ops) as [rs s2]. exact IH.
 Qed.
 
 Theorem walkable_list_exact ops pre :
-  (forall n c, In (OWrite n c) ops -> walkable (components n) = true) ->
+  (forall o n, In o ops -> writes_to o = Some n -> walkable (components n) = true) ->
   let m := snd (run_fs fs_init ops) in
   list_names m pre = filter (fun n => has_prefix n pre) (map (fun kv => join_path (fst kv)) (files m)).
 Proof.
@@ -934,6 +989,64 @@ Proof.
   apply (list_prefix_exact m pre Hr). apply all_walkable_no_dev.
   unfold m. rewrite refinement_state. apply run_spec_walkable; [intros ? []|exact Hw].
 Qed.
+
+(* ------------------------------------------------------------------- Copy *)
+(* Copy(dst, src) between different names is write(dst, read(src)): the
+   destination then reads as the source did, the source and every other
+   object read as before; the two objects are independent afterwards (a later
+   write to one does not change the other: write_frame). *)
+Theorem copy_is_write_of_read m d sr : reachable m -> components d <> components sr ->
+  copy m (components d) (components sr) =
+    match read m (components sr) with
+    | ROk c => write m (components d) c
+    | _ => (false, m)
+    end.
+Proof.
+  intros _ Hne. unfold copy. destruct (read m (components sr)); try reflexivity.
+  destruct (same_path (components d) (components sr)) eqn:E; [|reflexivity].
+  apply same_path_spec in E. contradiction.
+Qed.
+
+Lemma run_fs_snoc : forall a b m0, snd (run_fs m0 (a ++ b)) = snd (run_fs (snd (run_fs m0 a)) b).
+Proof.
+  induction a as [|o a IH]; intros b m0; simpl; [reflexivity|].
+  destruct (step_fs m0 o) as [r m1]. specialize (IH b m1).
+  destruct (run_fs m1 (a ++ b)) as [rs m2]. destruct (run_fs m1 a) as [rs' m3]. exact IH.
+Qed.
+
+Theorem copy_read m d sr m' : reachable m -> components d <> components sr ->
+  copy m (components d) (components sr) = (true, m') ->
+  reachable m' /\
+  exists c, read m (components sr) = ROk c /\ read m' (components d) = ROk c /\ read m' (components sr) = ROk c /\
+  forall n c2, components n <> components d ->
+    (read m' (components n) = ROk c2 <-> read m (components n) = ROk c2).
+Proof.
+  intros Hr Hne H. pose proof H as Hcopy. rewrite (copy_is_write_of_read _ _ _ Hr Hne) in H.
+  destruct (read m (components sr)) as [c| | |] eqn:Er; try discriminate.
+  split.
+  - destruct Hr as [ops <-]. exists (ops ++ [OCopy d sr]).
+    rewrite run_fs_snoc. simpl. rewrite Hcopy. reflexivity.
+  - exists c. split; [reflexivity|]. split; [eapply write_read; eauto|]. split.
+    + apply (write_frame m d c m' sr c Hr H); [congruence | exact Er].
+    + intros n c2 Hn. apply (write_frame m d c m' n c2 Hr H Hn).
+Qed.
+
+(* copying an object onto itself keeps its content and the whole tree (fix
+   11cc580); an absent object cannot be copied *)
+Theorem copy_self_keeps_content m o : reachable m ->
+  (forall c, read m (components o) = ROk c -> copy m (components o) (components o) = (true, m)) /\
+  (sget (components o) (files m) = None -> copy m (components o) (components o) = (false, m)).
+Proof.
+  intro Hr. unfold copy. split.
+  - intros c H. rewrite H. rewrite (proj2 (same_path_spec _ _) eq_refl). reflexivity.
+  - intro H. rewrite (read_absent_not_exist m o Hr H). reflexivity.
+Qed.
+
+Definition ops_copy_self : list op := [OWrite [97] [1; 2; 3]; OCopy [97] [97]; ORead [97]; OCopy [98] [98]].
+Lemma copy_self_example :
+  forallb op_ok ops_copy_self = true /\
+  fst (run_fs fs_init ops_copy_self) = [RW true; RC true; RR (ROk [1; 2; 3]); RC false].
+Proof. vm_compute. auto. Qed.
 
 (* ------------------------------------------ statements as used by Props/C18 *)
 Lemma spec_map_laws s p c :
